@@ -203,7 +203,7 @@ func c08GfDiff(f *c08Gf, got, want *c08Gv) string {
 		switch {
 		case g.k == c08GvNone && w.k == c08GvSome:
 			// the original carries a seed that is not part of its encoding
-			return "rlwe.EvaluationKey.BinarySize/counts-Seed-after-Expand"
+			return "rlwe.EvaluationKey.Expand/Seed-kept-after-Expand"
 		case g.k == c08GvSome && w.k == c08GvNone:
 			return "rlwe.EvaluationKey.ReadFrom/stale-Seed"
 		case g.k == c08GvSome && w.k == c08GvSome && string(g.a.b) != string(w.a.b):
